@@ -199,32 +199,16 @@ def spider_geometry(const, grad, curv, xpt, xl, xu, delta, debug):
     i_xu_pos = (xu < np.inf) & (xpt.T > TINY * xu)
     i_xu_neg = (xu < np.inf) & (xpt.T < -TINY * xu)
 
-    # (M, N)
-    alpha_xl_pos = np.atleast_2d(
-        np.broadcast_to(xl, i_xl_pos.shape)[i_xl_pos] / xpt.T[i_xl_pos]
-    )
-    # (M,)
-    alpha_xl_pos = np.max(alpha_xl_pos, axis=1, initial=-np.inf)
-    # make sure it's (M,)
-    alpha_xl_pos = np.broadcast_to(np.atleast_1d(alpha_xl_pos), xpt.shape[1])
-
-    alpha_xl_neg = np.atleast_2d(
-        np.broadcast_to(xl, i_xl_neg.shape)[i_xl_neg] / xpt.T[i_xl_neg]
-    )
-    alpha_xl_neg = np.max(alpha_xl_neg, axis=1, initial=np.inf)
-    alpha_xl_neg = np.broadcast_to(np.atleast_1d(alpha_xl_neg), xpt.shape[1])
-
-    alpha_xu_neg = np.atleast_2d(
-        np.broadcast_to(xu, i_xu_neg.shape)[i_xu_neg] / xpt.T[i_xu_neg]
-    )
-    alpha_xu_neg = np.max(alpha_xu_neg, axis=1, initial=-np.inf)
-    alpha_xu_neg = np.broadcast_to(np.atleast_1d(alpha_xu_neg), xpt.shape[1])
-
-    alpha_xu_pos = np.atleast_2d(
-        np.broadcast_to(xu, i_xu_pos.shape)[i_xu_pos] / xpt.T[i_xu_pos]
-    )
-    alpha_xu_pos = np.max(alpha_xu_pos, axis=1, initial=np.inf)
-    alpha_xu_pos = np.broadcast_to(np.atleast_1d(alpha_xu_pos), xpt.shape[1])
+    # For each straight line (row), the step sizes at which the bounds are
+    # reached: the positive steps are limited by the least ratio and the
+    # negative steps by the greatest one.
+    with np.errstate(divide="ignore", invalid="ignore"):
+        ratio_xl = xl[np.newaxis, :] / xpt.T
+        ratio_xu = xu[np.newaxis, :] / xpt.T
+    alpha_xl_pos = np.max(np.where(i_xl_pos, ratio_xl, -np.inf), axis=1)
+    alpha_xl_neg = np.min(np.where(i_xl_neg, ratio_xl, np.inf), axis=1)
+    alpha_xu_neg = np.max(np.where(i_xu_neg, ratio_xu, -np.inf), axis=1)
+    alpha_xu_pos = np.min(np.where(i_xu_pos, ratio_xu, np.inf), axis=1)
 
     for k in range(xpt.shape[1]):
         # Set alpha_tr to the step size for the trust-region constraint.
